@@ -72,7 +72,7 @@ pub struct Ctx {
     pub tier: Tier,
     pub seed: u64,
     pub root: PathBuf, // /verif
-    pub hang_limit: Duration,
+    pub hang_limit_s: std::sync::atomic::AtomicU64,
     pub t0: Instant,
     pub rep: Mutex<Report>,
     pub known: Vec<(String, String)>, // (key, text) for open findings of this property
@@ -93,7 +93,7 @@ impl Ctx {
             tier,
             seed,
             root,
-            hang_limit: Duration::from_secs(20),
+            hang_limit_s: std::sync::atomic::AtomicU64::new(20),
             t0: Instant::now(),
             rep: Mutex::new(Report::default()),
             known,
@@ -198,7 +198,7 @@ impl Ctx {
         self.violation(
             sub,
             &key,
-            &format!("Hang: no progress for {:?} on case {} of {}", self.hang_limit, idx, sub),
+            &format!("Hang: no progress for {} s on case {} of {}", self.hang_limit_s.load(std::sync::atomic::Ordering::Relaxed), idx, sub),
             json!({"class": "hang", "index": idx, "case": detail}),
         );
         self.cap(&format!("run finalised early: a case of {} hung and its thread cannot be reclaimed", sub));
